@@ -9,6 +9,26 @@ class CMakeSyntaxError(SyntaxError):
     pass
 
 
+class LexerErrorListener(ErrorListener):
+    """
+    Error listener for the lexer. The lexer's default listener only prints a
+    "token recognition error" and then drops the offending characters, so the
+    parser would silently work on a view of the file in which source characters
+    are missing. This listener turns every such error into an exception.
+    """
+
+    def syntaxError(self, recognizer, offendingSymbol, line, column, msg, e):
+        """
+        :raises CMakeSyntaxError: For every error the lexer reports. The lexer's own
+                                  exception is not re-raised because it is a RecognitionException,
+                                  which the parser rules would catch and try to recover from.
+        """
+        s = CMakeSyntaxError()
+        s.lineno = f"{line}:{column}"
+        s.msg = msg
+        raise s
+
+
 class ParserErrorListener(ErrorListener):
     """
     Listens for parser errors and raises exceptions when they occur.
